@@ -20,6 +20,10 @@ def build(tier):
         O.append(Obligation('verifreg.universal_receiver_hook[allocations=%d, extensions=%d]' % (na, ne), run_receiver_hook(na, ne), props_receiver_hook,
                             descr='datacap received = total size of new allocations + extended claims exactly; extension spend burnt at once; allocations recorded for the token sender',
                             bounds='%d allocation request(s), %d claim extension(s); claims table symbolic; burn send may fail' % (na, ne), max_paths=200000))
+    for w in ('add_verifier', 'remove_verifier'):
+        O.append(Obligation('verifreg.%s' % w, run_verifier(w), props_verifier(w),
+                            descr='verifier set: only the root; add writes exactly the granted allowance (>= 1 MiB) for an ID address other than the root whose datacap balance is not positive; remove deletes an existing entry; one entry touched',
+                            bounds='one call; verifier table symbolic; nested balance query symbolic', max_paths=60000))
     O.append(Obligation('verifreg.remove_verified_client_data_cap', run_remove_datacap, props_remove_datacap,
                         descr='datacap removal: only the root, two different verifiers whose signatures are checked against the same client / amount and their current proposal ids (then used up); destroys min(balance, amount) from the client, reported exactly',
                         bounds='one call; verifier / proposal tables symbolic; CUT: signature verification (arbitrary verdict, arguments recorded)', max_paths=100000))
